@@ -329,3 +329,23 @@ Example C15_sc_item_nonvacuous :
   | _ => false
   end = true.
 Proof. repeat split; vm_compute; reflexivity. Qed.
+
+(* the other item kinds: a unit enum (wire name with a dash), a generic alias and the generic struct are strict items,
+   every one is written, and the printed text reproduces every doc string and is contained *)
+Definition c15_scnv_unit : ritem :=
+  ItEnum (EUnit {| eid := c15_ktnv_id "Color" "Color"; egenerics := []; ecomments := [c15_doc_nasty_line];
+                   evariants := [VUnit (c15_ktnv_vsh "Red" "red" [c15_doc_nasty_line]);
+                                 VUnit (c15_ktnv_vsh "DarkBlue" "dark-blue" [lit "second"])];
+                   edecs := []; erecursive := false; eredacted := false |}).
+Definition c15_scnv_alias : ritem :=
+  ItAlias {| aid := c15_ktnv_id "Al" "Al"; agenerics := [lit "T"]; atype := RVec (RSimple (lit "T"));
+             acomments := [c15_doc_nasty_line]; adecs := []; aredacted := false |}.
+Definition c15_scnv_good (it : ritem) : bool :=
+  match sc_write_item c15_sc_cfg it with
+  | Ok text => negb (Nat.eqb (List.length text) 0) && good_C15 C15sc (c15_item_docs_helpers_first it) text
+  | _ => false
+  end.
+Example C15_sc_item_kinds_nonvacuous :
+  forallb (c15_item_strict C15sc Scala) [c15_scnv_unit; c15_scnv_alias; c15_ktnv_struct] = true /\
+  forallb c15_scnv_good [c15_scnv_unit; c15_scnv_alias; c15_ktnv_struct] = true.
+Proof. split; vm_compute; reflexivity. Qed.
